@@ -1,4 +1,5 @@
 import Proto.Flow1
+import Proto.FlowModel
 import Mathlib.Data.List.Nodup
 import Mathlib.Data.List.Zip
 
@@ -7,14 +8,6 @@ import Mathlib.Data.List.Zip
 open Finset
 
 variable {ι : Type} [DecidableEq ι]
-
-/-- consecutive pairs of a path -/
-def pairs : List ι → List (ι × ι)
-  | u :: v :: rest => (u, v) :: pairs (v :: rest)
-  | _ => []
-
-def augPath (f : ι → ι → ℤ) (path : List ι) (c : ℤ) : ι → ι → ℤ :=
-  fun a b => f a b + (if (a, b) ∈ pairs path then c else 0) - (if (b, a) ∈ pairs path then c else 0)
 
 theorem pairs_fst_mem {path : List ι} {a b : ι} (h : (a, b) ∈ pairs path) : a ∈ path ∧ b ∈ path := by
   induction path with
